@@ -250,22 +250,28 @@ class Tap:
                     fresh = True
                 else:
                     fresh = False
-                order = []
+                # A passive observer may have missed a whole key phase (an endpoint that followed its
+                # peer's update and then updated again without sending anything in between), so look
+                # up to three generations ahead; parity of the distance is given by the phase bit.
+                n1 = st["cur"].next_phase()
                 if bit == st["bit"]:
-                    order = [("cur", st["cur"])]
+                    order = [(0, st["cur"]), (2, None)]
                 else:
-                    order = [("next", st["cur"].next_phase())]
-                    if st["prev"] is not None:
-                        order.append(("prev", st["prev"]))
-                for which, k in order:
+                    order = [(1, n1), (-1, st["prev"]), (3, None)]
+                for ahead, k in order:
+                    if k is None and ahead in (2, 3):
+                        k = n1.next_phase() if ahead == 2 else n1.next_phase().next_phase()
+                    if k is None:
+                        continue
                     try:
                         plain = k.open(pn, header, ct)
                     except InvalidTag:
                         continue
                     used = k
-                    if which == "next":
-                        st["prev"], st["cur"], st["bit"] = st["cur"], k, bit
-                        st["gen"] += 1
+                    if ahead > 0:
+                        prev = st["cur"] if ahead == 1 else (n1 if ahead == 2 else n1.next_phase())
+                        st["prev"], st["cur"], st["bit"] = prev, k, bit
+                        st["gen"] += ahead
                     break
                 if plain is not None:
                     self.phase[sender] = st
